@@ -198,7 +198,7 @@ var initDeny = map[string]bool{
 	"crypto/tls": true, "crypto/x509": true, "net/http/httptrace": true, "internal/cpu": true, "sync/atomic": true,
 	"runtime/debug": true, "os/exec": true, "io/fs": true, "path/filepath": true, "internal/syscall/unix": true,
 	"net/http/internal": true, "vendor/golang.org/x/net/http2/hpack": true, "compress/flate": true, "compress/gzip": true,
-	"mime/multipart": true, "crypto/sha256": false, "crypto/sha1": true, "crypto/md5": true, "crypto/internal/boring": true,
+	"mime/multipart": false, "crypto/sha256": false, "crypto/sha1": true, "crypto/md5": true, "crypto/internal/boring": true,
 	"hash/crc32": true, "log/slog": true, "internal/bytealg": true, "crypto": true, "internal/testlog": true,
 	"net/textproto": false,
 	"github.com/davecgh/go-spew/spew": true,
